@@ -20,6 +20,9 @@ open Hv.Lock
 
 structure Cfg where
   prune : Bool
+  /-- caller IDs are globally unique (`uuid.NewString()` in `Lock`); `false`: per-queue ticket
+      numbers 1, 2, … (unique within one key only) -/
+  uniqueIds : Bool := true
   deriving DecidableEq, Repr
 
 /-- the queue-level code shape (facts of C14) -/
@@ -46,9 +49,14 @@ structure St where
   /-- dead queues whose `CompareAndDelete` has not run yet -/
   unmapPending : List Nat
   next : Nat
+  /-- ghost: every caller id ever issued, with the key it was issued for -/
+  issued : List (Nat × Nat)
   deriving DecidableEq, Repr
 
-def init : St := { objs := [], map := [], calls := [], unmapPending := [], next := 0 }
+def init : St := { objs := [], map := [], calls := [], unmapPending := [], next := 0, issued := [] }
+
+/-- number of `Lock` calls made on a key so far (the per-queue ticket counter of the non-unique variant) -/
+def ticket (s : St) (k : Nat) : Nat := (s.issued.filter (·.2 == k)).length
 
 inductive Act where
   /-- `Lock(ctx, key, ttl)` is entered by a caller with fresh id -/
@@ -65,7 +73,9 @@ inductive Act where
 
 def step (cfg : Cfg) (s : St) : Act → Option St
   | .call id k =>
-    if s.next < id then some { s with calls := s.calls ++ [⟨id, k, none⟩], next := id } else none
+    if (if cfg.uniqueIds then s.next < id else id = ticket s k + 1) then
+      some { s with calls := s.calls ++ [⟨id, k, none⟩], next := max s.next id, issued := s.issued ++ [(id, k)] }
+    else none
   | .getQueue id k =>
     if (⟨id, k, none⟩ : Call) ∈ s.calls then
       match s.map.lookup k with
